@@ -31,17 +31,23 @@ const (
 	// the groups is the order in which the workers happened to run
 	// -> signature group_by_order_nondeterministic. Avoided by adding a total
 	// ORDER BY over the group keys to every GROUP BY query.
-	avoidKnownGroupByOrder = true
+	avoidKnownGroupByOrder = false
 	// REPLACE appends the unmatched rows by ranging over a Go map
 	// -> signature replace_unmatched_order. Avoided by giving every REPLACE at
 	// most one unmatched row.
-	avoidKnownReplaceOrder = true
+	avoidKnownReplaceOrder = false
 	// Three or more analytic functions in one select list are evaluated in
 	// the order of a Go map range (appendAnalyticFunctionToListIfNotExist);
 	// each evaluation re-sorts the view, so row order and tie resolution vary
 	// -> signature analytic_eval_order_map. Avoided by at most two analytic
 	// functions per select list.
-	avoidKnownAnalyticOrder = true
+	avoidKnownAnalyticOrder = false
+	// Open defect of another property (C14/C05): a FROM-subquery over a file
+	// clears the path of the cached table, every later DML touching that file
+	// fails with "file  does not exist" - identically on every run, so it is no
+	// C12 divergence, but it cuts the program short. Avoided by writing the
+	// derived table as a common table expression.
+	avoidKnownSubqueryPath = false
 )
 
 // ---------------------------------------------------------------------
@@ -90,7 +96,7 @@ func (r *rng) next() uint64 {
 	z = (z ^ (z >> 27)) * 0x94d049bb133111eb
 	return z ^ (z >> 31)
 }
-func (r *rng) n(k int) int { return int(r.next() % uint64(k)) }
+func (r *rng) n(k int) int    { return int(r.next() % uint64(k)) }
 func (r *rng) pct(p int) bool { return r.n(100) < p }
 func (r *rng) perm(n int) []int {
 	p := make([]int, n)
@@ -293,8 +299,9 @@ func (g *gctx) genJoin() stmt {
 		sql = "SELECT a.id, b.k FROM t1 a CROSS JOIN t2 b WHERE a.h = b.w" + pickS(g, "crossExtra", []string{"", " AND a.v > 5", " AND b.k % 2 = 0"})
 		kind = "join_cross"
 	case 7:
-		sql = "SELECT id, a.g, a.v, b.v AS bv FROM t1 a JOIN t3 b USING (id)" + g.where("a.", 30)
-		kind = "join_using"
+		// the USING column is merged: it is only addressable unqualified
+		sql = "SELECT id, a.g, a.v, b.v AS bv FROM t1 a JOIN t3 b USING (id)" + pickS(g, "usingExtra", []string{"", " WHERE a.v > 3", " WHERE b.v IS NOT NULL AND a.h < 3", " ORDER BY id % 3", " ORDER BY a.h DESC, b.v"})
+		return stmt{SQL: sql, Kind: "join_using", Sel: true}
 	case 8:
 		sql = "SELECT a.id, a.s, b.id AS bid FROM t1 a FULL JOIN t3 b ON a.id = b.id AND a.v = b.v"
 		kind = "join_full"
@@ -326,9 +333,15 @@ func (g *gctx) aggs(lo, hi int) []string {
 
 // groupOrder appends the ORDER BY of a GROUP BY query: total over the group
 // keys while the known defect is avoided, otherwise often none (tagged).
-func (g *gctx) groupOrder(sql string, totalKeys []string) (string, []string) {
+func (g *gctx) groupOrder(sql string, totalKeys []string, overJoin bool) (string, []string) {
 	total := strings.Join(totalKeys, ", ")
-	if avoidKnownGroupByOrder {
+	// the grouping is split over workers from 160 input rows on
+	exposed := overJoin || g.c.N1 >= 2*query.MinimumRequiredPerCPUCore
+	var tags []string
+	if exposed {
+		tags = []string{"groupby_unordered"}
+	}
+	if avoidKnownGroupByOrder && exposed {
 		if g.pct("grpOrdByCount", 30) {
 			return sql + " ORDER BY c DESC, " + total, nil
 		}
@@ -338,9 +351,9 @@ func (g *gctx) groupOrder(sql string, totalKeys []string) (string, []string) {
 	case 0:
 		return sql + " ORDER BY " + total, nil
 	case 1:
-		return sql + " ORDER BY c", []string{"groupby_unordered"}
+		return sql + " ORDER BY c", tags
 	}
-	return sql, []string{"groupby_unordered"}
+	return sql, tags
 }
 
 // groupSelect builds a GROUP BY query over t1.
@@ -355,7 +368,6 @@ func (g *gctx) groupSelect() (string, []string) {
 		{[]string{"g", "h"}, []string{"g", "h"}, []string{"g", "h"}},
 		{[]string{"h"}, []string{"h"}, []string{"h"}},
 		{[]string{"s"}, []string{"s"}, []string{"s"}},
-		{[]string{"v % 3 AS vm"}, []string{"v % 3"}, []string{"vm"}},
 		{[]string{"h", "s"}, []string{"h", "s"}, []string{"h", "s"}},
 		{[]string{"v"}, []string{"v"}, []string{"v"}},
 	}
@@ -366,7 +378,7 @@ func (g *gctx) groupSelect() (string, []string) {
 	if g.pct("having", 25) {
 		sql += fmt.Sprintf(" HAVING COUNT(*) > %d", g.rng("hk", 0, 3))
 	}
-	return g.groupOrder(sql, k.ord)
+	return g.groupOrder(sql, k.ord, false)
 }
 
 // groupInsertSource: a three-column GROUP BY query usable as the source of INSERT INTO t3 (id, v, s).
@@ -383,7 +395,7 @@ func (g *gctx) groupInsertSource() (string, []string) {
 	default:
 		sql, keys = "SELECT MIN(id) + 200000 AS nid, COUNT(*) AS c, s FROM t1"+g.where("", 40)+" GROUP BY s", []string{"s"}
 	}
-	return g.groupOrder(sql, keys)
+	return g.groupOrder(sql, keys, false)
 }
 
 func (g *gctx) genGroup() stmt {
@@ -394,13 +406,7 @@ func (g *gctx) genGroup() stmt {
 		return stmt{SQL: sql, Kind: "agg_all", Sel: true}
 	case 1:
 		// group over a join
-		sql := "SELECT b.x, COUNT(*) AS c, SUM(a.v) AS sv, LISTAGG(a.id, ' ') AS ids FROM t1 a JOIN t2 b ON a.h = b.w GROUP BY b.x"
-		var tags []string
-		if avoidKnownGroupByOrder {
-			sql += " ORDER BY b.x"
-		} else {
-			tags = []string{"groupby_unordered"}
-		}
+		sql, tags := g.groupOrder("SELECT b.x, COUNT(*) AS c, SUM(a.v) AS sv, LISTAGG(a.id, ' ') AS ids FROM t1 a JOIN t2 b ON a.h = b.w GROUP BY b.x", []string{"b.x"}, true)
 		return stmt{SQL: sql, Kind: "group_join", Sel: true, Tags: tags}
 	}
 	sql, tags := g.groupSelect()
@@ -557,6 +563,9 @@ func (g *gctx) genSubquery() stmt {
 		sql = "SELECT a.id, a.g FROM t1 a WHERE EXISTS (SELECT 1 FROM t2 b WHERE b.k = a.g)"
 	case 3:
 		sql = "SELECT a.id, q.k, q.x FROM t1 a JOIN (SELECT k, w, x FROM t2 WHERE k % 2 = 0) q ON a.g = q.k"
+		if avoidKnownSubqueryPath {
+			sql = "WITH q AS (SELECT k, w, x FROM t2 WHERE k % 2 = 0) SELECT a.id, q.k, q.x FROM t1 a JOIN q ON a.g = q.k"
+		}
 	case 4:
 		sql = "SELECT id, v FROM t1 WHERE v > ANY (SELECT w FROM t2 WHERE k < 5)"
 	case 5:
@@ -622,22 +631,32 @@ func (g *gctx) genDML() {
 		nNew := g.rng("nNew", 2, 7)
 		if avoidKnownReplaceOrder {
 			nNew = g.rng("nNew1", 0, 1)
-			if nMatch+nNew == 0 {
-				nMatch = 1
-			}
 		}
 		var rows []string
+		used := map[int]bool{}
+		inserted := nNew // rows that match nothing, plus every further row repeating a matched key
 		for i := 0; i < nMatch && len(g.t3ids) > 0; i++ {
-			rows = append(rows, fmt.Sprintf("(%d, %d, 'r%d')", g.t3ids[fw.Uniform(g.t, "matchIdx", len(g.t3ids))], g.rng("rv", 0, 9), i))
+			id := g.t3ids[fw.Uniform(g.t, "matchIdx", len(g.t3ids))]
+			if used[id] {
+				if avoidKnownReplaceOrder {
+					continue
+				}
+				inserted++
+			}
+			used[id] = true
+			rows = append(rows, fmt.Sprintf("(%d, %d, 'r%d')", id, g.rng("rv", 0, 9), i))
 		}
 		for i := 0; i < nNew; i++ {
 			rows = append(rows, fmt.Sprintf("(%d, %d, 'n%d')", 900000+g.seq*100+i, g.rng("rv", 0, 9), i))
+		}
+		if len(rows) == 0 {
+			rows = append(rows, fmt.Sprintf("(%d, 1, 'n')", 900000+g.seq*100))
 		}
 		if len(rows) > 1 && g.pct("shuffleRows", 50) {
 			rows = rapid.Permutation(rows).Draw(g.t, "rowOrder")
 		}
 		var tags []string
-		if nNew >= 2 {
+		if inserted >= 2 {
 			tags = []string{"replace_multi_unmatched"}
 		}
 		g.add(stmt{SQL: "REPLACE INTO t3 (id, v, s) USING (id) VALUES " + strings.Join(rows, ", "), Kind: "replace_values", Tags: tags})
@@ -1016,7 +1035,7 @@ func checkCase(c detCase) (fw.Outcome, *fw.Violation) {
 
 func TestC12InProcess(t *testing.T) {
 	fw.Run(t, fw.Spec[detCase]{
-		ID: "C12", Name: "in_process", Quick: 320, Thorough: 6400,
+		ID: "C12", Name: "in_process", Quick: 240, Thorough: 4800,
 		Gen: genCase, Check: checkCase,
 		Rule: "three CSV tables (t1 from the threshold-straddling size classes 5..1000, join partner t2, DML target t3; contents expanded from one drawn seed) and a program of 1-3 queries (filter, every join kind, GROUP BY with aggregates incl. LISTAGG/JSON_AGG, DISTINCT, set operators, ORDER BY with ties and LIMIT/OFFSET, 1-4 analytic functions, subqueries) plus 0-2 of INSERT..SELECT / UPDATE / DELETE / REPLACE each followed by SELECT * of its target, then COMMIT; the program runs in-process with cpu in {1,2,3,4,8,16} x r runs (quick 3, thorough 10) under a drawn cycle of GOMAXPROCS values; every run must give the result sets (header, rows, row order; text and NULL-ness), the error and the bytes of every file of the first cpu=1 run; non-trivial = the verif counter saw a task manager with >1 goroutine in a non-reference run; distinct by (operator kinds, size class of t1)",
 		Assumptions: []string{
@@ -1148,7 +1167,7 @@ func TestC12CLI(t *testing.T) {
 	fw.Run(t, fw.Spec[detCase]{
 		ID: "C12", Name: "cli", Quick: 24, Thorough: 480,
 		Gen: genCLICase, Check: checkCLICase,
-		Rule: "the same generator; the program is run by the csvq binary as `csvq --cpu N -f CSV -q -s prog.sql` for N in {1,2,3,4,8,16} x r runs (quick 2, thorough 4) with the GOMAXPROCS environment variable varied; stdout, stderr, exit code and the bytes of every file in the repository after the run must equal those of the first --cpu 1 run; non-trivial = an in-process run of the same program at cpu 16 used a task manager with >1 goroutine; distinct by (operator kinds, size class of t1)",
+		Rule:        "the same generator; the program is run by the csvq binary as `csvq --cpu N -f CSV -q -s prog.sql` for N in {1,2,3,4,8,16} x r runs (quick 2, thorough 4) with the GOMAXPROCS environment variable varied; stdout, stderr, exit code and the bytes of every file in the repository after the run must equal those of the first --cpu 1 run; non-trivial = an in-process run of the same program at cpu 16 used a task manager with >1 goroutine; distinct by (operator kinds, size class of t1)",
 		Assumptions: []string{"goroutine schedules are sampled", "a run that exceeds 60 s is repeated once with 240 s before it counts (loaded machine)"},
 	})
 }
